@@ -288,7 +288,7 @@ EXTRA7 = {
     'C17': ' Seventh round: the configuration transformers change nothing but what they are for (compared as configure_section reads a layout: optional, end_of_message, index, parameters); a metadata-only decode never wires.',
     'C18': ' Seventh round: precedence of argument, pragma and default decided by folding the whole constructor on concrete scripts (level 0 as argument and as pragma).',
     'C19': ' Seventh round: set_uint folded on a bit stream with concrete content: afterwards exactly the nbits bits at bitpos hold the value, everything else and the length are unchanged, values that do not fit are refused - however the replacement is spelled.',
-    'C20': ' Seventh round: each part of a definition message under fixed instead of delayed replication (genuine defect repaired: Table A offset); helper sequences recognised by their definition, not by their number; foreign category-11 shapes refused with the library error.',
+    'C20': ' Seventh round: each part of a definition message under fixed instead of delayed replication (genuine defect repaired: Table A offset); helper sequences recognised by their definition, not by their number; foreign category-11 shapes refused with the library error; the definitions of several definition messages of one stream accumulate (scan folded with the real table-group cache).',
 }
 
 NOT_APPLICABLE = {
